@@ -515,10 +515,13 @@ def real_fields(line):
     pl = bytes.fromhex(h)
     if has_nonascii_text(name, pl):
         return 'EXC:nonascii'          # R5: outside the model's domain, reported as such by both sides
+    given = bytearray(pl)
     try:
-        f = find_class(name).construct(bytearray(pl))
+        f = find_class(name).construct(given)
     except Exception as e:
         return 'EXC:' + exc_name(e)
+    if bytes(given) != pl or bytes(f.data) != pl:
+        return 'PAYLOAD-CHANGED-BY-DECODING'
     dec = ','.join(f'{it.name}={show(it.value)}' for it in ordered_items(f) if not isinstance(it, Padding))
     try:
         f.pack()
@@ -1412,6 +1415,19 @@ def real_render(line):
                 it.unpack(d.to_bytes(width, 'little'))
                 it.value = v
             return str(it)[len('f: '):]
+        if p[0] == 'strval':
+            from ubxlib.ubx_cfg_valset import UbxCfgValSetAction
+            from ubxlib.ubx_cfg_valget import UbxCfgValGetPoll, UbxCfgValGet
+            if p[1] == 'valset':
+                f = UbxCfgValSetAction([CfgKeyData('x', g, i, b, v, sg) for g, i, b, sg, v in parse_items(p[2])])
+            elif p[1] == 'valgetpoll':
+                f = UbxCfgValGetPoll([int(k) for k in p[2].split(',')])
+            else:
+                f = UbxCfgValGet.construct(bytearray(bytes.fromhex(p[2])))
+            text = str(f)
+            names = [it.name for it in ordered_items(f) if not isinstance(it, Padding)]
+            missing = [n for n in names if n not in text]
+            return f'ok name={"true" if type(f).NAME in text else "false"} missing={",".join(missing) or "-"} items={len(names)}'
         if p[0] == 'str':
             cls = find_class(p[1])
             if p[2] != '-' and has_nonascii_text(p[1], bytes.fromhex(p[2])):
@@ -1435,6 +1451,12 @@ def oracles_render(line, real_out):
     if p[0] == 'render':
         return [{'prop': 'C19', 'ok': not real_out.startswith('EXC'), 'expected': 'text', 'observed': real_out[:100],
                  'what': 'str() of a field returns text without raising, for every field value (fresh, decoded or edited)'}], []
+    if p[0] == 'strval':
+        if (real_out.startswith('EXC:ValueError') and p[1] != 'valgetpoll') or (real_out.startswith('EXC:') and p[1] == 'valget'):
+            return [], []           # malformed VALGET data / an item of an invalid width: C14's subject (cfgitem_text_invalid)
+        ok = real_out.startswith('ok name=true missing=- ')
+        return [{'prop': 'C19', 'ok': ok, 'expected': 'ok name=true missing=-', 'observed': real_out[:200],
+                 'what': 'str() of a VALSET / VALGET frame returns text with the message name and every item, without raising'}], []
     if p[0] == 'str':
         if p[2] != '-' and not wellformed(p[1], bytes.fromhex(p[2])):
             return [], []
@@ -1474,6 +1496,10 @@ def gen_render(rng, n, profile):
                     if k != 'text':
                         edits.append(f'{fname}={rng.choice([0, 1, (1 << (8 * w - 1)) - 1, (1 << (8 * w)) - 1 if k in "BHIQ" else -1])}')
                 yield f'str|{name}|{pl.hex()}|{",".join(edits)}'
+    for ln in gen_valset(rng, max(20, n // 3), 'valget'):
+        kind, arg = ln.split('|')[:2]
+        if kind in ('valset', 'valgetpoll', 'valget'):
+            yield f'strval|{kind}|{arg}'
     for extra in ('UbxCfgPrtUart', 'UbxCfgGnss', 'UbxEsfStatus', 'UbxEsfAlg', 'UbxNavStatus', 'UbxCfgEsfla'):
         size = CLASSES[extra]
         if size:
